@@ -311,10 +311,14 @@ impl Scenario for MecabScenario {
                 }
                 3 => {
                     let i = rng.usize(t.len());
-                    t[i] = match rng.below(3) {
+                    t[i] = match rng.below(6) {
                         0 => t[i].replacen(' ', "", 1),
                         1 => format!("x{}", t[i]),
-                        _ => format!(" {}", t[i]),
+                        2 => format!(" {}", t[i]),
+                        // round 8: ids that an integer parser accepts but the format does not
+                        3 => format!("+{}", t[i]),
+                        4 => format!("-{}", t[i]),
+                        _ => t[i].replacen(' ', "x ", 1),
                     };
                 }
                 _ => {}
